@@ -154,6 +154,19 @@ package avltree
 //@   modifies nothing
 //@   ensures [C15 C17 C18] (n == nil ==> result == 0) && (n != nil ==> result == n.hi - n.lo + 1)
 
+//@ -- String / output (C15: begins with the container's name; C17, C18: returns normally, reads only). output appends to the
+//@ -- caller's string through a *string parameter (a caller-owned cell), recursing over the subtree
+//@ func output
+//@   requires node != nil && node.tr != nil && ShapeInv(node.tr)
+//@   decreases node.hi - node.lo
+//@   modifies deref(str)
+//@   ensures [C15 C17 C18] hasPrefix(old(deref(str)), "AVLTree") ==> hasPrefix(deref(str), "AVLTree")
+
+//@ func Tree.String
+//@   requires ShapeInv(tree)
+//@   modifies nothing
+//@   ensures [C15 C17 C18] hasPrefix(result, "AVLTree")
+
 //@ func Tree.Keys
 //@   requires ShapeInv(tree)
 //@   modifies nothing
